@@ -260,7 +260,7 @@ class Interp:
                 raise Unsupported(f'call into {mod}.{getattr(fn, "__name__", fn)}: real I/O is not performed by the interpreter (no stub)')
             try:
                 return fn(*args, **kw)
-            except Exception as e:
+            except (Exception, SystemExit) as e:       # SystemExit: e.g. argparse's parser.exit() called by the code under test
                 raise PyExc(e)
         raise Unsupported(f'no model for {getattr(fn, "__qualname__", fn)!r} on symbolic arguments')
 
